@@ -23,7 +23,11 @@ pub fn gen(seed: u64, tier: Tier, k: u64) -> Value {
     let pkg = if k % 2 == 0 { Pkg::TwoFiles } else { Pkg::NoConcat };
     if k % 8 == 7 {
         // 3..4 content packs, all but the last embedded with the empty location
-        let case = gen_small(&mut rng, tier, Pkg::NoConcat, 2 + (k / 8 % 2) as usize, 4);
+        let mut case = gen_small(&mut rng, tier, Pkg::NoConcat, 2 + (k / 8 % 2) as usize, 4);
+        // content packs numbered from 0 in half of these containers (the low-level creators take any id; the high-level one starts at 1)
+        if k % 16 == 15 {
+            case.first_id = 0;
+        }
         return json!({"case": case.to_json(), "scn_seed": rng.next(), "mode": "loose"});
     }
     let mut case = gen_small(&mut rng, tier, pkg, n_extra, 5);
@@ -74,6 +78,8 @@ fn run_loose(desc: &Value, ctx: &Ctx) -> CaseOut {
         std::fs::create_dir_all(&origin).unwrap();
         // last content pack external, the others embedded with the empty location
         let last = n_packs;
+        // its pack id (the ids start at `first_id`, which the low-level creators let the application choose)
+        let last_id = case.pack_id(n_packs - 1);
         // (an embedded pack is recorded either with the empty location or with the name of the file it came from, which no
         // longer exists once the packs are joined: a pack held by the opened file is found there by uuid, whatever location it carries)
         let stale_bits = ju64(desc, "scn_seed") >> 8;
@@ -127,7 +133,7 @@ fn run_loose(desc: &Value, ctx: &Ctx) -> CaseOut {
             let mut damaged_id = None;
             if damage_embedded && n_packs >= 3 {
                 // an embedded content pack which is NOT the first content pack listed (ids 2..last-1)
-                let target = rng.range(2, last as u64 - 1) as u16;
+                let target = case.pack_id(rng.range(2, last as u64 - 1) as usize - 1);
                 let f = dir.join("c.jbk");
                 let mut bytes = std::fs::read(&f).unwrap();
                 let view = indep::decode_file(&bytes);
@@ -162,7 +168,7 @@ fn run_loose(desc: &Value, ctx: &Ctx) -> CaseOut {
                 }
                 if let Some(rest) = k.strip_prefix("content/") {
                     let p: u16 = rest.split('/').next().unwrap().parse().unwrap_or(0);
-                    if Some(p) == damaged_id || (remove_external && p as usize == last) {
+                    if Some(p) == damaged_id || (remove_external && p == last_id) {
                         return false;
                     }
                 }
@@ -173,7 +179,7 @@ fn run_loose(desc: &Value, ctx: &Ctx) -> CaseOut {
                 for (k, v) in &got {
                     if let Some(rest) = k.strip_prefix("content/") {
                         let p: usize = rest.split('/').next().unwrap().parse().unwrap_or(0);
-                        if p == last && !k.ends_with("/bytes") && !k.ends_with("/streamed") && !v.starts_with("ok:missing:") {
+                        if p == last_id as usize && !k.ends_with("/bytes") && !k.ends_with("/streamed") && !v.starts_with("ok:missing:") {
                             diffs.push(format!("{k}: {v} (expected ok:missing:…)"));
                         }
                     }
